@@ -288,8 +288,18 @@ Inductive iobj :=
 Definition type_is (n : bytes) (d : dict) : bool :=
   match goget kType d with OName t => bytes_eqb t n | _ => false end.
 
-Definition single_crypt (filters : list bytes) : bool :=
+(* The ONE decision "this stream is not enciphered because of its crypt filter": /Crypt is the sole filter
+   (whatever its DecodeParms say).  Both the writer and the reader must take exactly this decision. *)
+Definition skips_crypt (filters : list bytes) : bool :=
   match filters with [f] => bytes_eqb f nCrypt | _ => false end.
+
+(* writeStreamDictObject: !(len(sd.FilterPipeline) == 1 && sd.FilterPipeline[0].Name == "Crypt") *)
+Definition write_skips_crypt (filters : list bytes) : bool :=
+  Nat.eqb (length filters) 1 && bytes_eqb (nth 0 filters []) nCrypt.
+
+(* saveDecodedStreamContentWithLimit: len(sd.FilterPipeline) == 1 && sd.FilterPipeline[0].Name == "Crypt" *)
+Definition read_skips_crypt (filters : list bytes) : bool :=
+  Nat.eqb (length filters) 1 && bytes_eqb (nth 0 filters []) nCrypt.
 
 (* What reaches the output for one indirect object. *)
 Inductive emitted :=
@@ -313,7 +323,7 @@ Definition write_keyed (strE stmE : bytes -> res bytes) (to_os : bool) (io : iob
       match encryptDict strE d with
       | Err => Err
       | Ok d' =>
-          if type_is nXRef d' || single_crypt filters then Ok (EmTopStream d' raw)
+          if type_is nXRef d' || write_skips_crypt filters then Ok (EmTopStream d' raw)
           else match stmE raw with Ok raw' => Ok (EmTopStream d' raw') | Err => Err end
       end
   | ILazy o => Ok (EmTop o)                        (* writeLazyObjectStreamObject: raw bytes, NO encryption;
@@ -356,7 +366,7 @@ Definition read_emitted (strD stmD : bytes -> res bytes) (emd : bool) (filters :
       match decryptDict strD d with
       | Err => Err
       | Ok d' =>
-          if single_crypt filters then Ok (IStream d' filters raw)
+          if read_skips_crypt filters then Ok (IStream d' filters raw)
           else if type_is nXRef d' then Ok (IStream d' filters raw)      (* xref streams are parsed before ctx.E exists *)
           else match raw with
                | [] => Ok (IStream d' filters raw)
